@@ -159,8 +159,13 @@ func c17Main(args []string) error {
 				defer cancel()
 				base, cancelled, _ := strings.Cut(kind, "-")
 				fileOps := cancelled == "ops"
-				if fileOps {
+				long := cancelled == "long"
+				if fileOps || long {
 					cancelled = ""
+				}
+				if long {
+					// a run that outlives Ping's 3 s socket deadline while other calls queue on the same environment
+					prog = []string{"PROBE", nonce, "say:3:" + marker, "fdsfd:3", "sleep:7000", fmt.Sprintf("exit:%d", want)}
 				}
 				if cancelled != "" {
 					prog = []string{"PROBE", nonce, "say:3:" + marker, "fdsfd:3", "sleep:60000"}
@@ -175,6 +180,7 @@ func c17Main(args []string) error {
 					// create an own file, write the marker, read it back through a second Open, delete it
 					e := envs[base]
 					path := fmt.Sprintf("/w/ops-%d-%d", rd.ID, i)
+					time.Sleep(time.Duration(200+i*150) * time.Millisecond) // spread the calls over a long neighbour's life
 					o := withTimeout(func() opResult {
 						if err := e.Ping(); err != nil {
 							return errRes(err)
